@@ -216,6 +216,10 @@ func histSettle(w *cworld, bad func(key, format string, a ...interface{})) bool 
 			if r.Kind == kit.Leaf && r.Verb == "update" && r.Applied && kit.JSON(kit.Get(r.Pre, "status")) != kit.JSON(kit.Get(r.Post, "status")) {
 				bad("child-status-changed", "%s changed the child's status from %s to %s", r, kit.JSON(kit.Get(r.Pre, "status")), kit.JSON(kit.Get(r.Post, "status")))
 			}
+			// ... and never gives up a child the parent controls (every child here matches the selector)
+			if r.Kind == kit.Leaf && (r.Verb == "update" || r.Verb == "apply") && r.Applied && kit.ControllerUID(r.Pre) == "puid" && kit.ControllerUID(r.Post) != "puid" {
+				bad("own-child-orphaned", "%s removed the parent's controller reference from its own child (owner references now %v)", r, kit.Get(r.Post, "metadata", "ownerReferences"))
+			}
 		}
 		w.DeliverAll()
 		w.Sim.GC()
